@@ -250,9 +250,8 @@ Definition from_repr_float (hard : bool) (w : list Z) (allow_nonnum : bool) : re
   match str_to_decimal w allow_nonnum with
   | Ok (is_double, mantissa, exp10) =>
       from_decimal_safe hard (if is_double then Double_fmt else Single_fmt) mantissa exp10
-  | Host 1 => Err err_ifc
+  | Host x => if x =? host_ValueError then Err err_ifc else Host x
   | Err e => Err e
-  | Host x => Host x
   | OutOfFuel => OutOfFuel
   end.
 
@@ -261,17 +260,23 @@ Definition from_repr (hard : bool) (word : list Z) (allow_nonnum : bool) : res v
   let w := map upper (dropwhile (fun c => (c =? 32) || (c =? 10)) word) in
   match w with
   | [] => Ok (VInt [0; 0])
-  | 38 :: 72 :: r => v_from_hex r                         (* &H : MBF.v (C03), clean digit strings only *)
-  | 38 :: 79 :: r => v_from_oct (strip_blanks r)          (* &O *)
-  | 38 :: r => v_from_oct (strip_blanks r)                (* &  *)
-  | _ =>
-      match int_from_str w with
-      | Ok b => Ok (VInt b)
-      | Host 1 | Err 6 => from_repr_float hard w allow_nonnum    (* ValueError / Overflow: try a float *)
-      | Err e => Err e
-      | Host x => Host x
-      | OutOfFuel => OutOfFuel
-      end
+  | c0 :: r0 =>
+      if c0 =? 38 then
+        (* &H.. / &O.. / &.. : MBF.v (C03), clean digit strings only *)
+        match r0 with
+        | c1 :: r1 => if c1 =? 72 then v_from_hex r1
+                      else if c1 =? 79 then v_from_oct (strip_blanks r1)
+                      else v_from_oct (strip_blanks r0)
+        | [] => v_from_oct (strip_blanks r0)
+        end
+      else
+        match int_from_str w with
+        | Ok b => Ok (VInt b)
+        (* ValueError / Overflow: try a float *)
+        | Host x => if x =? host_ValueError then from_repr_float hard w allow_nonnum else Host x
+        | Err e => if e =? err_overflow then from_repr_float hard w allow_nonnum else Err e
+        | OutOfFuel => OutOfFuel
+        end
   end.
 
 (* ------------------------------------------------------------------------------------------------ *)
